@@ -5,7 +5,7 @@
      - the offsets of the chart are given as reduced fractions          (canon_offsets)     [scroll_speed only;
        a condition on the REPRESENTATION of the model's inputs, not on the chart: the harness emits reduced fractions] *)
 From Coq Require Import ZArith QArith Qabs List Bool Lia Lqa Permutation.
-From RV Require Import Base.PyNum Algo.DominantBpm Algo.ScrollSpeed Algo.AnalysisSpec Proofs.AnalysisProofs.
+From RV Require Import Base.PyNum Algo.DominantBpm Algo.ScrollSpeed Algo.AnalysisSpec Algo.PermDomain Proofs.AnalysisProofs.
 Import ListNotations.
 Open Scope Q_scope.
 
@@ -17,13 +17,7 @@ Definition opt_perm {A} (a b : option (list A)) : Prop :=
 Definition an_chart_perm (c c' : chart) : Prop :=
   Permutation (c_bpms c) (c_bpms c') /\ opt_perm (c_svs c) (c_svs c') /\ Permutation (c_notes c) (c_notes c').
 
-(* structural equality of fractions and "given in lowest terms" *)
-Definition q_same (a b : Q) : bool := (Qnum a =? Qnum b)%Z && (Qden a =? Qden b)%positive.
-Definition canonb (q : Q) : bool := q_same (Qred q) q.
-Definition canon_offsets (c : chart) : bool := forallb canonb (stack_offsets c).
-Definition svs_agreeb (c : chart) : bool :=
-  forallb (fun r1 => forallb (fun r2 => negb (Qeq_bool (fst r1) (fst r2)) || q_same (snd r1) (snd r2)) (sv_rows c)) (sv_rows c).
-
+(* side conditions as booleans: Algo/PermDomain.v (q_same, canonb, canon_offsets, svs_agreeb) *)
 Lemma q_same_eq a b : q_same a b = true -> a = b.
 Proof.
   unfold q_same. intro H. apply andb_true_iff in H. destruct H as [H1 H2]. apply Z.eqb_eq in H1. apply Pos.eqb_eq in H2.
@@ -366,4 +360,51 @@ Proof.
   exists (mkChart [(0, 120)] (Some [(0, 2); (0, 3)]) [0; 1000]), (mkChart [(0, 120)] (Some [(0, 3); (0, 2)]) [0; 1000]), None.
   split; [split; [apply Permutation_refl|split; [apply perm_swap|apply Permutation_refl]]|].
   split; [vm_compute; reflexivity|]. split; [vm_compute; reflexivity|]. vm_compute. discriminate.
+Qed.
+
+(* ------------------------------------------------------------------ the boolean domain evaluated by the runner *)
+Lemma remove_pair_perm x l r : remove_pair x l = Some r -> Permutation l (x :: r).
+Proof.
+  revert r. induction l as [|y l IH]; intros r H; cbn [remove_pair] in H; [discriminate|].
+  destruct (q_same (fst x) (fst y) && q_same (snd x) (snd y)) eqn:E.
+  - injection H as <-. apply andb_true_iff in E. destruct E as [E1 E2]. apply q_same_eq in E1, E2.
+    destruct x, y. cbn [fst snd] in *. subst. apply Permutation_refl.
+  - destruct (remove_pair x l) as [t|]; [|discriminate]. injection H as <-.
+    apply perm_trans with (y :: x :: t); [apply perm_skip, IH; reflexivity|apply perm_swap].
+Qed.
+Lemma perm_pairsb_sound a : forall b, perm_pairsb a b = true -> Permutation a b.
+Proof.
+  induction a as [|x a IH]; intros b H; cbn [perm_pairsb] in H.
+  - destruct b; [constructor|discriminate].
+  - destruct (remove_pair x b) as [r|] eqn:E; [|discriminate].
+    apply perm_trans with (x :: r); [apply perm_skip, IH; exact H|apply Permutation_sym, remove_pair_perm; exact E].
+Qed.
+Lemma map_pair0_inj (l l' : list Q) : Permutation (map (fun q => (q, 0)) l) (map (fun q => (q, 0)) l') -> Permutation l l'.
+Proof.
+  intro H. apply (Permutation_map fst) in H. rewrite !map_map in H. cbn [fst] in H. rewrite !map_id in H. exact H.
+Qed.
+Theorem an_chart_permb_sound c c' : an_chart_permb c c' = true -> an_chart_perm c c'.
+Proof.
+  unfold an_chart_permb, an_chart_perm. intro H. apply andb_true_iff in H. destruct H as [H H3].
+  apply andb_true_iff in H. destruct H as [H1 H2]. split; [apply perm_pairsb_sound; exact H1|]. split.
+  - unfold opt_perm. destruct (c_svs c), (c_svs c'); try discriminate; [apply perm_pairsb_sound; exact H2|exact I].
+  - apply map_pair0_inj, perm_pairsb_sound. exact H3.
+Qed.
+
+(* the theorems on the boolean domain the runner evaluates on every generated case *)
+Theorem dominant_bpm_perm_b c c' : dom_dominant c c' = true -> dominant_bpm c' = dominant_bpm c.
+Proof.
+  unfold dom_dominant. intro H. apply andb_true_iff in H. destruct H as [H1 H2].
+  apply dominant_bpm_perm; [apply an_chart_permb_sound; exact H1|exact H2].
+Qed.
+Theorem sv_normalize_perm_b c c' ov : dom_dominant c c' = true -> opt_perm (sv_normalize c ov) (sv_normalize c' ov).
+Proof.
+  unfold dom_dominant. intro H. apply andb_true_iff in H. destruct H as [H1 H2].
+  apply sv_normalize_perm; [apply an_chart_permb_sound; exact H1|exact H2].
+Qed.
+Theorem scroll_speed_perm_b c c' ov : dom_scroll c c' = true -> scroll_speed c' ov = scroll_speed c ov.
+Proof.
+  unfold dom_scroll, dom_dominant. intro H. apply andb_true_iff in H. destruct H as [H H4].
+  apply andb_true_iff in H. destruct H as [H H3]. apply andb_true_iff in H. destruct H as [H1 H2].
+  apply scroll_speed_perm; try assumption. apply an_chart_permb_sound. exact H1.
 Qed.
